@@ -4,7 +4,7 @@ import vlib
 from checks import codec
 
 LEVEL = "model_checking"
-RELEVANT = {"crash", "code", "size", "pad", "consume", "shape", "header"}
+RELEVANT = {"crash", "code", "size", "pad", "consume", "shape", "header", "stream"}
 
 
 def run(rep, tier, seed):
